@@ -133,6 +133,13 @@ class World:
             cb()
 
 
+def no_progress(mark, world):
+    """Livelock criterion: since `mark` = (virtual time, network operation count) no network
+    operation has started and virtual time has not moved by more than the clock ticks a
+    spinning caller produces (1 ns per clock read in tick mode)."""
+    return mark is not None and mark[1] == world.opcount and abs(world.now - mark[0]) < 1e-3
+
+
 def canon(obj):
     """Canonical JSON (for scenario digests / replay files)."""
     return json.dumps(obj, sort_keys=True, separators=(",", ":"), default=_default)
